@@ -20,19 +20,66 @@ var verifLiteralBytes = func() (l []int) {
 	return
 }()
 
-// H10-literals: a quoted string literal of n arbitrary printable bytes - which
-// may spell a keyword, an operator or a number - is a string literal with
-// exactly that text wherever the grammar takes a literal, in any statement.
-func verifH_C10_literals() {
-	n := verifParam("len", 4)
+// printable ASCII except the quote: with the backslash (bs=1), which the scanner
+// passes through as ordinary text unless it escapes the closing quote
+var verifLiteralBytesBS = func() (l []int) {
+	for c := 0x20; c < 0x7f; c++ {
+		if c != '\'' {
+			l = append(l, c)
+		}
+	}
+	return
+}()
+
+// verifLiteral returns n symbolic literal bytes. With bs=1 the class includes
+// the backslash, in positions where it cannot reach the closing quote or
+// another backslash (the scanner then keeps it as two ordinary characters).
+func verifLiteral(n int) string {
+	class := verifLiteralBytes
+	bs := verifParam("bs", 0) == 1
+	if bs {
+		class = verifLiteralBytesBS
+	}
 	b := make([]byte, n)
 	for i := range b {
-		b[i] = byte(verifIntFrom("c", verifLiteralBytes))
+		b[i] = byte(verifIntFrom("c", class))
 	}
-	lit := string(b)
-	switch verifChoice("stmt", 3) {
+	if bs {
+		for i := range b {
+			if i == n-1 {
+				verifAssume(b[i] != '\\')
+			} else {
+				verifAssume(verifOr(b[i] != '\\', b[i+1] != '\\'))
+			}
+		}
+	}
+	return string(b)
+}
+
+// H10-literals: a quoted string literal of n arbitrary printable bytes - which
+// may spell a keyword, an operator or a number - is a string literal with
+// exactly that text wherever the grammar takes a literal, in any statement, and
+// what follows it in the statement is still there; a number written with
+// leading zeros is that decimal number.
+func verifH_C10_literals() {
+	verifLiteralCases(verifParseText)
+}
+
+func verifLiteralCases(parse func(string) (interface{}, error)) {
+	n := verifParam("len", 4)
+	isOne := func(v interface{}) bool {
+		p, ok := v.(Predicate)
+		if !ok {
+			return false
+		}
+		c, isCol := p.LHS.(ColumnReference)
+		x, isInt := p.RHS.(int64)
+		return isCol && c.ColumnName == "a" && p.CompOp == EQ && isInt && x == 1
+	}
+	switch verifChoice("stmt", 4) {
 	case 0:
-		stmt, err := verifParseText("INSERT INTO t VALUES (1, '" + lit + "', 'x')")
+		lit := verifLiteral(n)
+		stmt, err := parse("INSERT INTO t VALUES (1, '" + lit + "', 'x')")
 		verifAssert(err == nil, "parses")
 		is, ok := stmt.(InsertStatement)
 		verifAssert(ok, "statement-kind")
@@ -42,10 +89,13 @@ func verifH_C10_literals() {
 			if len(tv.TableValueConstructorList) == 1 && len(tv.TableValueConstructorList[0].RowValueConstructorList) == 3 {
 				v, isStr := tv.TableValueConstructorList[0].RowValueConstructorList[1].(string)
 				verifAssert(isStr && v == lit, "literal-value")
+				w, isStr2 := tv.TableValueConstructorList[0].RowValueConstructorList[2].(string)
+				verifAssert(isStr2 && w == "x", "value-after-the-literal")
 			}
 		}
 	case 1:
-		stmt, err := verifParseText("SELECT a FROM t WHERE s = '" + lit + "' AND a = 1")
+		lit := verifLiteral(n)
+		stmt, err := parse("SELECT a FROM t WHERE s = '" + lit + "' AND a = 1 ORDER BY a LIMIT 3")
 		verifAssert(err == nil, "parses")
 		sel, ok := stmt.(Select)
 		verifAssert(ok, "statement-kind")
@@ -56,10 +106,14 @@ func verifH_C10_literals() {
 			if isBT {
 				v, isStr := bt.LHS.RHS.(string)
 				verifAssert(isStr && v == lit, "literal-value")
+				verifAssert(isOne(bt.RHS), "condition-after-the-literal")
 			}
+			verifAssert(len(sel.SortSpecificationList) == 1, "order-by-after-the-literal")
+			verifAssert(sel.LimitOffsetClause.LimitActive && sel.LimitOffsetClause.Limit == 3, "limit-after-the-literal")
 		}
-	default:
-		stmt, err := verifParseText("UPDATE t SET s = '" + lit + "', a = 2 WHERE a = 1")
+	case 2:
+		lit := verifLiteral(n)
+		stmt, err := parse("UPDATE t SET s = '" + lit + "', a = 2 WHERE a = 1")
 		verifAssert(err == nil, "parses")
 		us, ok := stmt.(UpdateStatementSearched)
 		verifAssert(ok, "statement-kind")
@@ -68,6 +122,31 @@ func verifH_C10_literals() {
 			if len(us.Set) == 2 {
 				v, isStr := us.Set[0].UpdateSource.(string)
 				verifAssert(isStr && v == lit, "literal-value")
+			}
+			w, isW := us.Where.(WhereClause)
+			verifAssert(isW && isOne(w.SearchCondition), "where-after-the-literal")
+		}
+	default:
+		// a number of 1-3 decimal digits, leading zeros included
+		nd := 1 + verifChoice("ndigits", 3)
+		d := make([]byte, nd)
+		val := int64(0)
+		for i := range d {
+			d[i] = byte(verifIntFrom("d", []int{'0', '1', '2', '3', '4', '5', '6', '7', '8', '9'}))
+			val = val*10 + int64(d[i]-'0')
+		}
+		stmt, err := parse("DELETE FROM t WHERE b = " + string(d) + " AND a = 1")
+		verifAssert(err == nil, "parses")
+		ds, ok := stmt.(DeleteStatementSearched)
+		verifAssert(ok, "statement-kind")
+		if ok {
+			w, _ := ds.WhereClause.(WhereClause)
+			bt, isBT := w.SearchCondition.(BooleanTerm)
+			verifAssert(isBT, "where-shape")
+			if isBT {
+				v, isInt := bt.LHS.RHS.(int64)
+				verifAssert(isInt && v == val, "number-value")
+				verifAssert(isOne(bt.RHS), "condition-after-the-literal")
 			}
 		}
 	}
